@@ -11,6 +11,9 @@ import (
 	"context"
 	"errors"
 	"fmt"
+	apierrors "k8s.io/apimachinery/pkg/api/errors"
+	"k8s.io/apimachinery/pkg/runtime/schema"
+	"sigs.k8s.io/controller-runtime/pkg/client/interceptor"
 	"sort"
 	"strings"
 	"sync"
@@ -103,6 +106,10 @@ func (c *loopCloud) DescribeNetworkInterfaceV2(ctx context.Context, opts ...aliy
 	defer c.mu.Unlock()
 	if c.shot("describe") != "" {
 		return nil, errors.New("injected: describe")
+	}
+	if o.NetworkInterfaceIDs == nil {
+		// the full synchronisation: from here on the controller knows what the cloud has
+		c.w.described, c.w.lostWrite = true, false
 	}
 	var ids []string
 	for id := range c.enis {
@@ -206,6 +213,10 @@ func (c *loopCloud) DeleteNetworkInterfaceV2(ctx context.Context, eniID string) 
 	c.log = append(c.log, loopCall{name: "delete", eni: eniID})
 	c.w.checkNotBound("delete", eniID, nil)
 	if m := c.shot("delete"); m == "before" {
+		if c.w.delFailedPass == nil {
+			c.w.delFailedPass = map[string]int{}
+		}
+		c.w.delFailedPass[eniID] = c.w.pass
 		return errors.New("injected: delete")
 	}
 	delete(c.enis, eniID)
@@ -237,8 +248,17 @@ func (c *loopCloud) assign(name, eniID string, n int, six bool) ([]aliyunClient.
 		return nil, apiErr.ErrNotFound
 	}
 	// judged against what the controller knows: the record it started this pass from (a call that timed out after
-	// taking effect leaves the record behind the cloud until the next full synchronisation)
-	have := 0
+	// taking effect leaves the record behind the cloud until the next full synchronisation) - or, once it has read the
+	// node's interfaces from the cloud in this pass, the cloud's content.  A pass whose status write was lost has to be
+	// followed by such a read before anything is requested (the controller knows its record is stale), so then the
+	// cloud's content counts as well.
+	real := 0
+	for ip := range e.ips {
+		if strings.Contains(ip, ":") == six {
+			real++
+		}
+	}
+	have, what := 0, "recorded on the interface"
 	if c.w.snap != nil {
 		if ni := c.w.snap.Status.NetworkInterfaces[eniID]; ni != nil {
 			have = len(ni.IPv4)
@@ -247,20 +267,17 @@ func (c *loopCloud) assign(name, eniID string, n int, six bool) ([]aliyunClient.
 			}
 		}
 	}
-	if have+n > c.cap4 {
-		c.w.viol("C08/cloud/assign-over-quota", fmt.Sprintf("%s(%s, %d) with %d addresses of that family recorded on the interface, %d allowed", name, eniID, n, have, c.cap4))
+	if c.w.described {
+		have, what = real, "on the interface in the cloud, which this pass has read"
+	} else if c.w.lostWrite {
+		have, what = real, "on the interface in the cloud (the status write of the pass that put them there was lost and the controller did not synchronise before asking for more)"
 	}
-	if c.w.faults == 0 {
-		// no call ever failed, so the record cannot legitimately be behind the cloud: the interface's real content counts
-		real := 0
-		for ip := range e.ips {
-			if strings.Contains(ip, ":") == six {
-				real++
-			}
-		}
-		if real+n > c.cap4 {
-			c.w.viol("C08/cloud/assign-over-quota", fmt.Sprintf("%s(%s, %d) with %d addresses of that family on the interface in the cloud (no call has failed), %d allowed", name, eniID, n, real, c.cap4))
-		}
+	if have+n > c.cap4 {
+		c.w.viol("C08/cloud/assign-over-quota", fmt.Sprintf("%s(%s, %d) with %d addresses of that family %s, %d allowed", name, eniID, n, have, what, c.cap4))
+	}
+	if c.w.faults == 0 && real+n > c.cap4 {
+		// no cloud call ever failed, so the record cannot legitimately be behind the cloud: the interface's real content counts
+		c.w.viol("C08/cloud/assign-over-quota", fmt.Sprintf("%s(%s, %d) with %d addresses of that family on the interface in the cloud (no call has failed), %d allowed", name, eniID, n, real, c.cap4))
 	}
 	m := c.shot(name)
 	if m == "before" {
@@ -335,7 +352,15 @@ func (c *loopCloud) UnAssignIpv6AddressesV2(ctx context.Context, eniID string, i
 
 type loopWorld struct {
 	noFaults, wide bool
-	faults         int
+	faults         int  // cloud calls made to fail
+	conflicts      int  // status writes of the Node CR answered with a conflict
+	conflict       bool // the next status write of the Node CR is answered with a conflict
+	conflictFired  bool // … and it was, in the current pass
+	lostWrite      bool // a pass that changed the cloud lost its status write and no full synchronisation has happened since
+	described      bool // the current pass has read the node's interfaces from the cloud
+	pass           int
+	lostPass       map[int]bool   // passes whose status write was lost
+	delFailedPass  map[string]int // interface -> pass in which its deletion failed without effect
 	c              *Ctx
 	r              *Rng
 	focus          string
@@ -432,7 +457,18 @@ func newLoopWorld(c *Ctx, r *Rng, focus string) *loopWorld {
 	w.cl = fake.NewClientBuilder().WithScheme(terwayTypes.Scheme).
 		WithObjects(node, &corev1.Node{ObjectMeta: metav1.ObjectMeta{Name: "node-a"}}, &networkv1beta1.NodeRuntime{ObjectMeta: metav1.ObjectMeta{Name: "node-a"}}).
 		WithStatusSubresource(&networkv1beta1.Node{}, &corev1.Node{}, &networkv1beta1.NodeRuntime{}).
-		WithIndex(&corev1.Pod{}, "spec.nodeName", func(o client.Object) []string { return []string{o.(*corev1.Pod).Spec.NodeName} }).Build()
+		WithIndex(&corev1.Pod{}, "spec.nodeName", func(o client.Object) []string { return []string{o.(*corev1.Pod).Spec.NodeName} }).
+		WithInterceptorFuncs(interceptor.Funcs{
+			SubResourceUpdate: func(ctx context.Context, c client.Client, sub string, obj client.Object, opts ...client.SubResourceUpdateOption) error {
+				if _, ok := obj.(*networkv1beta1.Node); ok && w.conflict {
+					w.conflict = false
+					w.conflictFired = true
+					w.trace = append(w.trace, "  status write answered with a conflict")
+					return apierrors.NewConflict(schema.GroupResource{Group: "network.alibabacloud.com", Resource: "nodes"}, obj.GetName(), errors.New("injected: the object has been modified"))
+				}
+				return c.SubResource(sub).Update(ctx, obj, opts...)
+			},
+		}).Build()
 	w.cloud = &loopCloud{enis: map[string]*loopENI{}, fail: map[string]string{}, cap4: w.cap4, quota: w.quota, w: w}
 	vsw, _ := vswitch.NewSwitchPool(100, "10m")
 	w.rec = ipamnode.VerifNewReconcileNode(w.cl, w.cloud, vsw, time.Hour, 0)
@@ -500,6 +536,8 @@ func (w *loopWorld) reportPodIPs() {
 
 func (w *loopWorld) reconcile() (int, error) {
 	w.snap = w.node()
+	w.pass++
+	w.described, w.conflictFired = false, false
 	before := len(w.cloud.log)
 	time.Sleep(1050 * time.Millisecond) // the reconciler refuses to run twice within a second
 	_, err := w.rec.Reconcile(context.Background(), reconcile.Request{NamespacedName: k8stypes.NamespacedName{Name: "node-a"}})
@@ -511,6 +549,15 @@ func (w *loopWorld) reconcile() (int, error) {
 	}
 	w.cloud.mu.Unlock()
 	w.trace = append(w.trace, fmt.Sprintf("reconcile err=%v", err != nil))
+	if w.conflictFired {
+		if w.lostPass == nil {
+			w.lostPass = map[int]bool{}
+		}
+		w.lostPass[w.pass] = true
+		if muts > 0 {
+			w.lostWrite = true
+		}
+	}
 	w.checkRecord()
 	return muts, err
 }
@@ -605,7 +652,14 @@ func (w *loopWorld) runCase() {
 		if r.Intn(6) == 0 {
 			w.forceFullSync()
 		}
+		if r.Intn(5) == 0 && !w.noFaults {
+			// the Node CR changed under the controller (daemon / node controller wrote it): its status write conflicts
+			w.conflict = true
+			w.conflicts++
+			w.trace = append(w.trace, "fault status-conflict")
+		}
 		w.reconcile()
+		w.conflict = false
 		w.checkRollback()
 		w.reportPodIPs()
 	}
@@ -621,7 +675,7 @@ func (w *loopWorld) runCase() {
 			break
 		}
 	}
-	if w.faults == 0 && last == 0 {
+	if w.faults == 0 && w.conflicts == 0 && last == 0 {
 		// no call ever failed: the record must equal the cloud without the help of a full synchronisation
 		w.checkAgreementAs("C08/loop/no-fault/", "with no failed call at all, at a quiet point")
 	}
@@ -674,7 +728,7 @@ func (w *loopWorld) checkRollback() {
 		if e == nil {
 			continue // deleted again
 		}
-		if _, ok := n.Status.NetworkInterfaces[id]; !ok {
+		if _, ok := n.Status.NetworkInterfaces[id]; !ok && !w.conflictFired {
 			w.viol("C08/loop/created-eni-leaked", fmt.Sprintf("%s was created (attached=%v) and is neither deleted nor recorded", id, e.attached))
 		}
 	}
@@ -693,7 +747,12 @@ func (w *loopWorld) checkAgreementAs(prefix, when string) {
 	for id, e := range w.cloud.enis {
 		ni := n.Status.NetworkInterfaces[id]
 		if ni == nil {
-			w.viol(prefix+"cloud-eni-not-recorded", fmt.Sprintf(when+": %s (attached=%v) exists in the cloud and is not in the record", id, e.attached))
+			key, why := prefix+"cloud-eni-not-recorded", ""
+			if p, ok := w.delFailedPass[id]; ok && w.lostPass[p] && !e.attached {
+				key += "/failed-delete-and-lost-status-write"
+				why = fmt.Sprintf("; its roll-back deletion failed in pass %d, it was recorded for deletion, and that pass's status write was answered with a conflict", p)
+			}
+			w.viol(key, fmt.Sprintf(when+": %s (attached=%v) exists in the cloud and is not in the record%s", id, e.attached, why))
 			continue
 		}
 		for ip := range e.ips {
@@ -793,7 +852,9 @@ func (w *loopWorld) checkSatisfied() {
 
 func runIpamLoops(c *Ctx, focus string) {
 	n := c.Scale(64, 320)
-	var seeds []uint64
+	// past failures first: lost synchronisation after two conflicts in a row (fixed 6131003); failed roll-back delete whose
+	// record is lost with a conflicting status write (known finding)
+	seeds := []uint64{13257447658396619023, 187150356967577528}
 	for i := 0; i < n; i++ {
 		seeds = append(seeds, c.R.U64())
 	}
@@ -829,6 +890,12 @@ func runIpamLoopSeeds(c *Ctx, focus string, seeds []uint64) {
 				c.Dist[k] += v
 			}
 			c.Dist["loop-cases"]++
+			if w.conflicts > 0 {
+				c.Dist["loop-cases-with-status-conflict"]++
+			}
+			if w.faults > 0 {
+				c.Dist["loop-cases-with-cloud-fault"]++
+			}
 			for _, v := range w.viols {
 				if strings.HasPrefix(v[0], focus+"/") {
 					c.Violate(v[0], v[1], append([]string{fmt.Sprintf("ip.loop %d", seed), fmt.Sprintf("# closed loop, case seed %d (cap=%d quota=%d v6=%v min=%d max=%d)", seed, w.cap4, w.quota, w.en6, w.minP, w.maxP)}, prefixAll("# ", w.trace)...)...)
